@@ -1,7 +1,751 @@
-//! C22 — not built yet.
-use vcore::Ctx;
+//! C22 — look-ahead and selection views list every sub-field that will be resolved.
+//!
+//! A derive-built, data-driven schema ("L") whose composite-returning resolvers record what `ctx.look_ahead()` and
+//! `ctx.field().selection_set()` report (names, aliases, resolved arguments, two levels deep, and `exists()` probes
+//! for every field name of the return type). Per resolver invocation the reference executor's collected field set
+//! for the RUNTIME type of every object the resolver returns must be listed by both views (lower bound), and a view
+//! may only list selections that are reachable through fragments (of any type condition) and not removed by
+//! @skip/@include (upper bound).
+use crate::execcmp::*;
+use async_graphql::Value;
+use indexmap::IndexMap;
+use std::collections::{BTreeMap, HashMap, HashSet};
+use std::sync::{Arc, Mutex};
+use vcore::{Case, Ctx, Src};
+use vgql::ast::*;
+use vgql::coerce::*;
+use vgql::gentyped::*;
+use vgql::print::print_plain;
+use vgql::refexec::{execute, included, show_path, Exec, Quirks, RefOut, Seg, Touch};
+use vgql::sch::Sch;
+use vgql::world::*;
+use vschemas::rt::Rt;
 
-pub fn run(_ctx: &mut Ctx) {
-    eprintln!("C22: check not built yet");
-    std::process::exit(2);
+// ---------------------------------------------------------------------------------------------------------------
+// what a resolver records
+
+#[derive(Clone, Debug)]
+pub struct VField {
+    name: String,
+    alias: Option<String>,
+    args: Result<Vec<(String, Value)>, String>,
+}
+impl VField {
+    fn show(&self) -> String {
+        let args = match &self.args {
+            Ok(a) if a.is_empty() => String::new(),
+            Ok(a) => format!("({})", a.iter().map(|(k, v)| format!("{}: {}", k, v)).collect::<Vec<_>>().join(", ")),
+            Err(e) => format!("(<error: {}>)", e),
+        };
+        match &self.alias {
+            Some(a) => format!("{}: {}{}", a, self.name, args),
+            None => format!("{}{}", self.name, args),
+        }
+    }
+}
+fn show_fields(v: &[VField]) -> String {
+    format!("[{}]", v.iter().map(|f| f.show()).collect::<Vec<_>>().join(", "))
+}
+
+/// one entry of `ctx.field().selection_set()` with the entries of its own `selection_set()`
+#[derive(Clone, Debug)]
+pub struct VNode {
+    f: VField,
+    children: Vec<VField>,
+}
+
+/// `ctx.look_ahead().field(name)`: `exists()`, `selection_fields()` and the same for `.field(name).field(sub)`
+#[derive(Clone, Debug)]
+pub struct Probe {
+    name: String,
+    exists: bool,
+    fields: Vec<VField>,
+    sub: Vec<(String, bool, Vec<VField>)>,
+}
+
+#[derive(Clone, Debug, Default)]
+pub struct Rec {
+    sel: Vec<VNode>,
+    la: Vec<Probe>,
+    count: usize,
+}
+
+pub struct Views {
+    sch: Arc<Sch>,
+    log: Mutex<BTreeMap<String, Rec>>,
+}
+
+// ---------------------------------------------------------------------------------------------------------------
+// schema L
+
+mod l {
+    use super::{Probe, VField, VNode, Views};
+    use async_graphql::*;
+    use std::sync::Arc;
+    use vgql::world::{Fault, WVal, World};
+    use vschemas::rt::Rt;
+    use vschemas::z::{FromW, Mood};
+
+    fn bad<T>(what: &str, v: &WVal) -> Result<T> {
+        Err(Error::new(format!("harness: world value {:?} is not {}", v, what)))
+    }
+    macro_rules! node_type {
+        ($t:ident) => {
+            pub struct $t(pub usize);
+            impl FromW for $t {
+                fn from_w(v: &WVal, w: &World) -> Result<Self> {
+                    match v {
+                        WVal::Ref(n) if w.nodes[*n].ty == stringify!($t) => Ok($t(*n)),
+                        v => bad(stringify!($t), v),
+                    }
+                }
+            }
+        };
+    }
+    node_type!(Item);
+    node_type!(Shelf);
+
+    macro_rules! abstract_type {
+        ($t:ident) => {
+            impl FromW for $t {
+                fn from_w(v: &WVal, w: &World) -> Result<Self> {
+                    match v {
+                        WVal::Ref(n) => match w.nodes[*n].ty.as_str() {
+                            "Item" => Ok($t::Item(Item(*n))),
+                            "Shelf" => Ok($t::Shelf(Shelf(*n))),
+                            _ => bad(stringify!($t), v),
+                        },
+                        v => bad(stringify!($t), v),
+                    }
+                }
+            }
+        };
+    }
+
+    #[derive(Interface)]
+    #[graphql(field(name = "id", ty = "ID"), field(name = "name", ty = "String"), field(name = "next", ty = "Option<Node>"), field(name = "rel", ty = "Option<Any>"))]
+    pub enum Node {
+        Item(Item),
+        Shelf(Shelf),
+    }
+    abstract_type!(Node);
+
+    #[derive(Union)]
+    pub enum Any {
+        Item(Item),
+        Shelf(Shelf),
+    }
+    abstract_type!(Any);
+
+    #[derive(InputObject)]
+    pub struct Filter {
+        pub q: Option<String>,
+        #[graphql(default = 0)]
+        pub min: i32,
+        pub moods: Option<Vec<Mood>>,
+    }
+
+    fn vf(f: &SelectionField<'_>) -> VField {
+        VField {
+            name: f.name().to_string(),
+            alias: f.alias().map(|a| a.to_string()),
+            args: f.arguments().map(|a| a.into_iter().map(|(k, v)| (k.to_string(), v)).collect()).map_err(|e| e.message),
+        }
+    }
+
+    /// field names of a composite type and of its possible types, plus `__typename`
+    fn names_of(views: &Views, ty: &str) -> Vec<String> {
+        let mut out: Vec<String> = vec!["__typename".into()];
+        let mut types = vec![ty.to_string()];
+        types.extend(views.sch.possible_types(ty));
+        for t in types {
+            if let Some(td) = views.sch.ty(&t) {
+                for f in &td.fields {
+                    if !out.contains(&f.name) {
+                        out.push(f.name.clone());
+                    }
+                }
+            }
+        }
+        out
+    }
+    /// the composite type (if any) that a field called `name` has on `ty` or one of its possible types
+    fn composite_of(views: &Views, ty: &str, name: &str) -> Option<String> {
+        let mut types = vec![ty.to_string()];
+        types.extend(views.sch.possible_types(ty));
+        types.iter().filter_map(|t| views.sch.field(t, name)).map(|f| f.ty.base().to_string()).find(|b| views.sch.is_composite(b))
+    }
+
+    /// record both views of the current field
+    fn record(ctx: &Context<'_>, parent_type: &str, field: &str) {
+        let views = match ctx.data::<Arc<Views>>() {
+            Ok(v) => v,
+            Err(_) => return,
+        };
+        let path = ctx.path_node.map(|p| p.to_string()).unwrap_or_default();
+        let ret = views.sch.field(parent_type, field).map(|f| f.ty.base().to_string()).unwrap_or_default();
+        let sel: Vec<VNode> = ctx.field().selection_set().map(|f| VNode { f: vf(&f), children: f.selection_set().map(|c| vf(&c)).collect() }).collect();
+        let mut la = vec![];
+        let look = ctx.look_ahead();
+        for x in names_of(views, &ret) {
+            let p = look.field(&x);
+            let mut sub = vec![];
+            if let Some(c) = composite_of(views, &ret, &x) {
+                for y in names_of(views, &c) {
+                    let q = p.field(&y);
+                    sub.push((y, q.exists(), q.selection_fields().iter().map(vf).collect()));
+                }
+            }
+            la.push(Probe { name: x, exists: p.exists(), fields: p.selection_fields().iter().map(vf).collect(), sub });
+        }
+        let mut log = views.log.lock().unwrap();
+        let e = log.entry(path).or_default();
+        e.count += 1;
+        e.sel = sel;
+        e.la = la;
+    }
+
+    /// the common resolver body (as in schema Z): the world value of (node, field) converted to the Rust type
+    async fn res<T: FromW>(ctx: &Context<'_>, node: usize, field: &str) -> Result<T> {
+        let rt = ctx.data::<Rt>()?;
+        let world = rt.world.clone();
+        if let Some(Fault::ResolverError) = world.fault(node, field) {
+            return Err(Error::new("fault"));
+        }
+        let v = world.value(node, field).cloned().unwrap_or(WVal::Null);
+        T::from_w(&v, &world)
+    }
+    /// body of a resolver that returns a composite type
+    async fn resc<T: FromW>(ctx: &Context<'_>, node: usize, parent_type: &str, field: &str) -> Result<T> {
+        record(ctx, parent_type, field);
+        res(ctx, node, field).await
+    }
+
+    #[Object]
+    impl Item {
+        async fn id(&self, ctx: &Context<'_>) -> Result<ID> {
+            res(ctx, self.0, "id").await
+        }
+        async fn name(&self, ctx: &Context<'_>) -> Result<String> {
+            res(ctx, self.0, "name").await
+        }
+        async fn tag(&self, ctx: &Context<'_>, #[graphql(default_with = "Mood::Happy")] mood: Mood, f: Option<f64>) -> Result<Option<String>> {
+            let _ = (mood, f);
+            res(ctx, self.0, "tag").await
+        }
+        async fn score(&self, ctx: &Context<'_>) -> Result<Option<f64>> {
+            res(ctx, self.0, "score").await
+        }
+        async fn parent(&self, ctx: &Context<'_>) -> Result<Option<Item>> {
+            resc(ctx, self.0, "Item", "parent").await
+        }
+        async fn children(&self, ctx: &Context<'_>, #[graphql(default = 2)] first: i32, labels: Option<Vec<String>>) -> Result<Vec<Item>> {
+            let _ = (first, labels);
+            resc(ctx, self.0, "Item", "children").await
+        }
+        async fn shelf(&self, ctx: &Context<'_>) -> Result<Option<Shelf>> {
+            resc(ctx, self.0, "Item", "shelf").await
+        }
+        async fn next(&self, ctx: &Context<'_>) -> Result<Option<Node>> {
+            resc(ctx, self.0, "Item", "next").await
+        }
+        async fn rel(&self, ctx: &Context<'_>) -> Result<Option<Any>> {
+            resc(ctx, self.0, "Item", "rel").await
+        }
+    }
+
+    #[Object]
+    impl Shelf {
+        async fn id(&self, ctx: &Context<'_>) -> Result<ID> {
+            res(ctx, self.0, "id").await
+        }
+        async fn name(&self, ctx: &Context<'_>) -> Result<String> {
+            res(ctx, self.0, "name").await
+        }
+        async fn count(&self, ctx: &Context<'_>) -> Result<i32> {
+            res(ctx, self.0, "count").await
+        }
+        async fn items(&self, ctx: &Context<'_>, first: Option<i32>) -> Result<Option<Vec<Option<Item>>>> {
+            let _ = first;
+            resc(ctx, self.0, "Shelf", "items").await
+        }
+        async fn top(&self, ctx: &Context<'_>, id: ID) -> Result<Option<Item>> {
+            let _ = id;
+            resc(ctx, self.0, "Shelf", "top").await
+        }
+        async fn next(&self, ctx: &Context<'_>) -> Result<Option<Node>> {
+            resc(ctx, self.0, "Shelf", "next").await
+        }
+        async fn rel(&self, ctx: &Context<'_>) -> Result<Option<Any>> {
+            resc(ctx, self.0, "Shelf", "rel").await
+        }
+    }
+
+    fn root(ctx: &Context<'_>, mutation: bool) -> Result<usize> {
+        let rt = ctx.data::<Rt>()?;
+        if mutation {
+            rt.world.mutation_root.ok_or_else(|| Error::new("harness: no mutation root"))
+        } else {
+            Ok(rt.world.query_root)
+        }
+    }
+
+    pub struct Query;
+    #[Object]
+    impl Query {
+        async fn item(&self, ctx: &Context<'_>, id: Option<ID>, #[graphql(default = 1)] n: i32) -> Result<Option<Item>> {
+            let _ = (id, n);
+            resc(ctx, root(ctx, false)?, "Query", "item").await
+        }
+        async fn items(&self, ctx: &Context<'_>, filter: Option<Filter>, first: Option<i32>) -> Result<Vec<Item>> {
+            let _ = (filter, first);
+            resc(ctx, root(ctx, false)?, "Query", "items").await
+        }
+        async fn node(&self, ctx: &Context<'_>) -> Result<Option<Node>> {
+            resc(ctx, root(ctx, false)?, "Query", "node").await
+        }
+        async fn nodes(&self, ctx: &Context<'_>) -> Result<Option<Vec<Option<Node>>>> {
+            resc(ctx, root(ctx, false)?, "Query", "nodes").await
+        }
+        async fn any(&self, ctx: &Context<'_>) -> Result<Option<Any>> {
+            resc(ctx, root(ctx, false)?, "Query", "any").await
+        }
+        async fn anys(&self, ctx: &Context<'_>) -> Result<Option<Vec<Any>>> {
+            resc(ctx, root(ctx, false)?, "Query", "anys").await
+        }
+        async fn shelf(&self, ctx: &Context<'_>) -> Result<Shelf> {
+            resc(ctx, root(ctx, false)?, "Query", "shelf").await
+        }
+        async fn n(&self, ctx: &Context<'_>) -> Result<i32> {
+            res(ctx, root(ctx, false)?, "n").await
+        }
+    }
+
+    pub struct Mutation;
+    #[Object]
+    impl Mutation {
+        #[graphql(name = "move")]
+        async fn move_(&self, ctx: &Context<'_>, to: Option<ID>, filter: Option<Filter>) -> Result<Option<Item>> {
+            let _ = (to, filter);
+            resc(ctx, root(ctx, true)?, "Mutation", "move").await
+        }
+        async fn make(&self, ctx: &Context<'_>, #[graphql(default_with = "\"x\".to_string()")] name: String) -> Result<Shelf> {
+            let _ = name;
+            resc(ctx, root(ctx, true)?, "Mutation", "make").await
+        }
+        async fn touch(&self, ctx: &Context<'_>) -> Result<i32> {
+            res(ctx, root(ctx, true)?, "touch").await
+        }
+    }
+
+    pub type LSchema = Schema<Query, Mutation, EmptySubscription>;
+    pub fn build() -> LSchema {
+        Schema::build(Query, Mutation, EmptySubscription).finish()
+    }
+}
+
+// ---------------------------------------------------------------------------------------------------------------
+// the oracle
+
+/// (name, alias, supplied arguments after coercion to the declared argument types)
+#[derive(Clone, Debug, PartialEq)]
+struct Ent {
+    name: String,
+    alias: Option<String>,
+    args: IndexMap<String, CV>,
+}
+impl Ent {
+    fn show(&self) -> String {
+        let args = if self.args.is_empty() { String::new() } else { format!("({})", self.args.iter().map(|(k, v)| format!("{}: {}", k, v.show())).collect::<Vec<_>>().join(", ")) };
+        match &self.alias {
+            Some(a) => format!("{}: {}{}", a, self.name, args),
+            None => format!("{}{}", self.name, args),
+        }
+    }
+}
+
+fn cv_of(v: &Value) -> CV {
+    match v {
+        Value::Null => CV::Null,
+        Value::Number(n) => match n.as_i64() {
+            Some(i) => CV::Int(i),
+            None => CV::Float(n.as_f64().unwrap_or(f64::NAN)),
+        },
+        Value::String(s) => CV::Str(s.clone()),
+        Value::Boolean(b) => CV::Bool(*b),
+        Value::Binary(_) => CV::Str("<binary>".into()),
+        Value::Enum(e) => CV::Enum(e.to_string()),
+        Value::List(l) => CV::List(l.iter().map(cv_of).collect()),
+        Value::Object(o) => CV::Obj(o.iter().map(|(k, v)| (k.to_string(), cv_of(v))).collect()),
+    }
+}
+
+struct Oracle<'a> {
+    sch: &'a Sch,
+    doc: &'a Doc,
+    world: &'a World,
+    ex: Exec<'a>,
+}
+
+impl<'a> Oracle<'a> {
+    /// what the document supplies for a field node selected on type `tctx`
+    fn ent_of(&self, f: &Field, tctx: &str) -> Result<Ent, String> {
+        let mut args = IndexMap::new();
+        if !f.args.is_empty() {
+            let fd = self.sch.field(tctx, &f.name.s).ok_or_else(|| format!("HARNESS: no field {}.{}", tctx, f.name.s))?;
+            for (n, pv) in &f.args {
+                let ad = fd.arg(&n.s).ok_or_else(|| format!("HARNESS: no argument {}.{}({})", tctx, f.name.s, n.s))?;
+                match coerce_literal(self.sch, &ad.ty, &pv.v, Some(&self.ex.vars)) {
+                    Ok(Some(cv)) => {
+                        args.insert(n.s.clone(), cv);
+                    }
+                    Ok(None) => {}
+                    Err(e) => return Err(format!("HARNESS: argument {} of {} does not coerce: {}", n.s, f.name.s, e.msg)),
+                }
+            }
+        }
+        Ok(Ent { name: f.name.s.clone(), alias: f.alias.as_ref().map(|a| a.s.clone()), args })
+    }
+
+    /// a view entry, its argument values coerced to the argument types of `tctx.name`
+    fn ent_of_view(&self, v: &VField, tctx: &str) -> Result<Ent, String> {
+        let raw = v.args.as_ref().map_err(|e| format!("arguments() failed: {}", e))?;
+        let mut args = IndexMap::new();
+        for (n, val) in raw {
+            let ad = self.sch.field(tctx, &v.name).and_then(|fd| fd.arg(n)).ok_or_else(|| format!("argument {} is not defined for {}.{}", n, tctx, v.name))?;
+            let cv = coerce_runtime(self.sch, &ad.ty, &cv_of(val)).map_err(|e| format!("argument {}: {} is not a value of {}: {}", n, val, ad.ty.show(), e.msg))?;
+            args.insert(n.clone(), cv);
+        }
+        Ok(Ent { name: v.name.clone(), alias: v.alias.clone(), args })
+    }
+
+    /// upper bound: every selection below `sel` that @skip/@include keep, through fragments of any type condition
+    fn allowed(&self, sel: &'a SelSet, tctx: &str, out: &mut Vec<(&'a Field, String)>, depth: usize) {
+        if depth > 40 {
+            return;
+        }
+        for it in &sel.items {
+            match it {
+                Selection::Field(f) => {
+                    if included(&f.directives, &self.ex.vars) {
+                        out.push((f, tctx.to_string()));
+                    }
+                }
+                Selection::Inline(i) => {
+                    if included(&i.directives, &self.ex.vars) {
+                        self.allowed(&i.sel, i.cond.as_ref().map(|c| c.s.as_str()).unwrap_or(tctx), out, depth + 1);
+                    }
+                }
+                Selection::Spread(sp) => {
+                    if included(&sp.directives, &self.ex.vars) {
+                        if let Some(fr) = self.doc.frag(&sp.name.s) {
+                            self.allowed(&fr.sel, &fr.cond.s, out, depth + 1);
+                        }
+                    }
+                }
+            }
+        }
+    }
+
+    /// lower bound: CollectFields for an object of run-time type `rt`
+    fn collected(&self, rt: &str, sel: &'a SelSet) -> Vec<&'a Field> {
+        let mut grouped: IndexMap<String, Vec<&'a Field>> = IndexMap::new();
+        let mut visited = HashSet::new();
+        self.ex.collect(rt, rt, sel, &mut visited, &mut grouped);
+        grouped.into_values().map(|v| v[0]).collect()
+    }
+
+    fn objects(&self, v: Option<&WVal>, out: &mut Vec<usize>) {
+        match v {
+            Some(WVal::Ref(n)) => {
+                if !out.contains(n) {
+                    out.push(*n)
+                }
+            }
+            Some(WVal::List(l)) => l.iter().for_each(|x| self.objects(Some(x), out)),
+            _ => {}
+        }
+    }
+
+    /// is the view entry one of the allowed selections (same name, alias and supplied arguments)?
+    fn in_allowed(&self, v: &VField, allowed: &[(&'a Field, String)]) -> Result<(&'a Field, String), String> {
+        let mut why = format!("no included selection `{}` below this field", v.show());
+        for (f, t) in allowed {
+            if f.name.s != v.name || f.alias.as_ref().map(|a| &a.s) != v.alias.as_ref() {
+                continue;
+            }
+            let want = self.ent_of(f, t)?;
+            match self.ent_of_view(v, t) {
+                Ok(got) if got == want => return Ok((*f, t.clone())),
+                Ok(got) => why = format!("lists `{}` but the document supplies `{}`", got.show(), want.show()),
+                Err(e) => why = format!("`{}`: {}", v.show(), e),
+            }
+        }
+        Err(why)
+    }
+
+    fn lists(&self, want: &Ent, tctx: &str, view: &[VField]) -> bool {
+        view.iter().any(|v| v.name == want.name && v.alias == want.alias && self.ent_of_view(v, tctx).map_or(false, |g| g == *want))
+    }
+}
+
+struct Stats {
+    invocations: usize,
+    abstract_ret: usize,
+    level2: usize,
+    pruned: usize,
+    other_type_listed: usize,
+    args_compared: usize,
+}
+
+/// check one invocation (touch `t` of a composite field); `node` = the field node that was executed
+fn check_invocation<'a>(o: &Oracle<'a>, t: &Touch, node: &'a Field, rec: &Rec, st: &mut Stats) -> Result<(), String> {
+    let ret = t.ty.base().to_string();
+    let mut a1 = vec![];
+    o.allowed(&node.sel, &ret, &mut a1, 0);
+    let mut total = vec![];
+    count_fields(o, &node.sel, &mut total);
+    if total.len() > a1.len() {
+        st.pruned += 1;
+    }
+    if o.sch.is_abstract(&ret) {
+        st.abstract_ret += 1;
+    }
+    // ---- upper bounds
+    for vn in &rec.sel {
+        let (f, tctx) = o.in_allowed(&vn.f, &a1).map_err(|e| format!("selection_set(): {}", e))?;
+        if let Some(c) = o.sch.field(&tctx, &f.name.s).map(|fd| fd.ty.base().to_string()).filter(|c| o.sch.is_composite(c)) {
+            let mut a2 = vec![];
+            o.allowed(&f.sel, &c, &mut a2, 0);
+            for ch in &vn.children {
+                o.in_allowed(ch, &a2).map_err(|e| format!("selection_set() of `{}`: {}", vn.f.show(), e))?;
+            }
+        } else if !vn.children.is_empty() {
+            return Err(format!("selection_set() of the leaf `{}` lists {}", vn.f.show(), show_fields(&vn.children)));
+        }
+    }
+    for p in &rec.la {
+        if p.exists != !p.fields.is_empty() {
+            return Err(format!("look_ahead().field({:?}): exists() = {} but selection_fields() = {}", p.name, p.exists, show_fields(&p.fields)));
+        }
+        let mut a2 = vec![];
+        for v in &p.fields {
+            if v.name != p.name {
+                return Err(format!("look_ahead().field({:?}) lists `{}`", p.name, v.show()));
+            }
+            o.in_allowed(v, &a1).map_err(|e| format!("look_ahead().field({:?}): {}", p.name, e))?;
+        }
+        for (f, tctx) in a1.iter().filter(|(f, _)| f.name.s == p.name) {
+            if let Some(c) = o.sch.field(tctx, &f.name.s).map(|fd| fd.ty.base().to_string()).filter(|c| o.sch.is_composite(c)) {
+                o.allowed(&f.sel, &c, &mut a2, 0);
+            }
+        }
+        for (y, exists, fields) in &p.sub {
+            if *exists != !fields.is_empty() {
+                return Err(format!("look_ahead().field({:?}).field({:?}): exists() = {} but selection_fields() = {}", p.name, y, exists, show_fields(fields)));
+            }
+            for v in fields {
+                if v.name != *y {
+                    return Err(format!("look_ahead().field({:?}).field({:?}) lists `{}`", p.name, y, v.show()));
+                }
+                o.in_allowed(v, &a2).map_err(|e| format!("look_ahead().field({:?}).field({:?}): {}", p.name, y, e))?;
+            }
+        }
+    }
+    // ---- lower bounds: what execution resolves for every object this resolver returned
+    let mut objs = vec![];
+    o.objects(o.world.value(t.node, &t.field), &mut objs);
+    let mut resolved_keys: HashSet<String> = HashSet::new();
+    for n in &objs {
+        let rt = o.world.nodes[*n].ty.clone();
+        for f in o.collected(&rt, &node.sel) {
+            resolved_keys.insert(f.key().to_string());
+            let want = o.ent_of(f, &rt)?;
+            st.args_compared += want.args.len();
+            let sel_entry = rec.sel.iter().find(|vn| o.lists(&want, &rt, std::slice::from_ref(&vn.f)));
+            if sel_entry.is_none() {
+                return Err(format!("selection_set() does not list `{}` (resolved for the {} at #{}); it lists {}", want.show(), rt, n, show_fields(&rec.sel.iter().map(|v| v.f.clone()).collect::<Vec<_>>())));
+            }
+            let probe = rec.la.iter().find(|p| p.name == f.name.s).ok_or_else(|| format!("HARNESS: no look-ahead probe for field name {}", f.name.s))?;
+            if !probe.exists {
+                return Err(format!("look_ahead().field({:?}).exists() is false although `{}` is resolved (for the {} at #{})", f.name.s, want.show(), rt, n));
+            }
+            if !o.lists(&want, &rt, &probe.fields) {
+                return Err(format!("look_ahead().field({:?}) does not list `{}` (resolved for the {} at #{}); it lists {}", f.name.s, want.show(), rt, n, show_fields(&probe.fields)));
+            }
+            // second level
+            if f.name.s == "__typename" {
+                continue;
+            }
+            let fd = o.sch.field(&rt, &f.name.s).ok_or_else(|| format!("HARNESS: no field {}.{}", rt, f.name.s))?;
+            if !o.sch.is_composite(fd.ty.base()) {
+                continue;
+            }
+            let mut kids = vec![];
+            o.objects(o.world.value(*n, &f.name.s), &mut kids);
+            for m in &kids {
+                let rt2 = o.world.nodes[*m].ty.clone();
+                for g in o.collected(&rt2, &f.sel) {
+                    st.level2 += 1;
+                    let want2 = o.ent_of(g, &rt2)?;
+                    let vn = sel_entry.unwrap();
+                    if !o.lists(&want2, &rt2, &vn.children) {
+                        return Err(format!("selection_set() of `{}` does not list `{}` (resolved for the {} at #{}); it lists {}", vn.f.show(), want2.show(), rt2, m, show_fields(&vn.children)));
+                    }
+                    let sub = probe.sub.iter().find(|(y, _, _)| *y == g.name.s).ok_or_else(|| format!("HARNESS: no look-ahead probe for {}.{}", f.name.s, g.name.s))?;
+                    if !sub.1 {
+                        return Err(format!("look_ahead().field({:?}).field({:?}).exists() is false although `{}` is resolved below `{}`", f.name.s, g.name.s, want2.show(), want.show()));
+                    }
+                    if !o.lists(&want2, &rt2, &sub.2) {
+                        return Err(format!("look_ahead().field({:?}).field({:?}) does not list `{}` (resolved below `{}`); it lists {}", f.name.s, g.name.s, want2.show(), want.show(), show_fields(&sub.2)));
+                    }
+                }
+            }
+        }
+    }
+    if rec.sel.iter().any(|v| !resolved_keys.contains(v.f.alias.as_ref().unwrap_or(&v.f.name))) {
+        st.other_type_listed += 1;
+    }
+    Ok(())
+}
+
+/// every field selection below `sel` through fragments, regardless of directives (to tell whether pruning happened)
+fn count_fields<'a>(o: &Oracle<'a>, sel: &'a SelSet, out: &mut Vec<&'a Field>) {
+    for it in &sel.items {
+        match it {
+            Selection::Field(f) => out.push(f),
+            Selection::Inline(i) => count_fields(o, &i.sel, out),
+            Selection::Spread(sp) => {
+                if let Some(fr) = o.doc.frag(&sp.name.s) {
+                    count_fields(o, &fr.sel, out)
+                }
+            }
+        }
+    }
+}
+
+/// response key -> field node, for the whole document (keys are unique: every field carries a fresh alias)
+fn index_fields<'a>(doc: &'a Doc) -> Result<HashMap<String, &'a Field>, String> {
+    fn walk<'a>(s: &'a SelSet, out: &mut HashMap<String, &'a Field>) -> Result<(), String> {
+        for it in &s.items {
+            match it {
+                Selection::Field(f) => {
+                    if f.name.s != "__typename" && out.insert(f.key().to_string(), f).is_some() {
+                        return Err(format!("HARNESS: response key {} is used by two field nodes", f.key()));
+                    }
+                    walk(&f.sel, out)?;
+                }
+                Selection::Inline(i) => walk(&i.sel, out)?,
+                Selection::Spread(_) => {}
+            }
+        }
+        Ok(())
+    }
+    let mut out = HashMap::new();
+    for d in &doc.defs {
+        match d {
+            Def::Op(o) => walk(&o.sel, &mut out)?,
+            Def::Frag(f) => walk(&f.sel, &mut out)?,
+        }
+    }
+    Ok(out)
+}
+
+fn check_all(sch: &Sch, td: &TypedDoc, world: &World, want: &RefOut, log: &BTreeMap<String, Rec>, st: &mut Stats) -> Result<(), String> {
+    let op = vgql::refexec::select_operation(&td.doc, td.op_name.as_deref()).map_err(|e| format!("HARNESS: {:?}", e))?;
+    let vars = coerce_variables(sch, op, &td.vars).map_err(|e| format!("HARNESS: variables: {}", e.msg))?;
+    let ex = Exec { sch, doc: &td.doc, world, vars, out: RefOut::default(), quirks: Quirks::default(), invalid_leaves: false, pending_occ_all: IndexMap::new() };
+    let o = Oracle { sch, doc: &td.doc, world, ex };
+    let index = index_fields(&td.doc)?;
+    for t in &want.touches {
+        if !sch.is_composite(t.ty.base()) {
+            continue;
+        }
+        let path = show_path(&t.path);
+        let key = match t.path.last() {
+            Some(Seg::Key(k)) => k,
+            _ => return Err("HARNESS: touch path does not end in a key".into()),
+        };
+        let node = index.get(key).ok_or_else(|| format!("HARNESS: no field node for response key {}", key))?;
+        let rec = match log.get(&path) {
+            Some(r) if r.count == 1 => r,
+            Some(r) => return Err(format!("the resolver at {} ran {} times (views cannot be attributed)", path, r.count)),
+            None => return Err(format!("the resolver at {} did not run although the reference execution resolves that field", path)),
+        };
+        st.invocations += 1;
+        check_invocation(&o, t, node, rec, st).map_err(|e| format!("resolver at `{}` ({}.{}): {}", path, t.parent_type, t.field, e))?;
+    }
+    Ok(())
+}
+
+fn run_one(schema: &l::LSchema, sch: &Arc<Sch>, s: &mut dyn Src, tcfg: &TypedCfg) -> Case {
+    let world = gen_world(sch, s, &WorldCfg::default());
+    let mut td = gen_typed_doc(sch, s, tcfg);
+    let text = print_plain(&mut td.doc);
+    let rendered = format!("world: {}\nquery: {}\nvariables: {}", world.show(), text, vars_json(&td.vars));
+    let want = match execute(sch, &td.doc, td.op_name.as_deref(), &td.vars, &world, Quirks::default()) {
+        Ok(w) => w,
+        Err(e) => return Case::fail(rendered, format!("HARNESS: reference executor rejects a generated request: {:?}", e)),
+    };
+    let views = Arc::new(Views { sch: sch.clone(), log: Mutex::new(BTreeMap::new()) });
+    let resp = vcore::det::block_on(schema.execute(request(&text, &td.vars, td.op_name.as_deref()).data(Rt::new(world.clone())).data(views.clone())));
+    let log = views.log.lock().unwrap().clone();
+    let mut st = Stats { invocations: 0, abstract_ret: 0, level2: 0, pruned: 0, other_type_listed: 0, args_compared: 0 };
+    let verdict = check_all(sch, &td, &world, &want, &log, &mut st);
+    let agrees = compare(&want, &resp).is_ok();
+    let d = &td.stats;
+    let c = match verdict {
+        Ok(()) => Case::pass(rendered),
+        Err(e) => Case::fail(rendered, e),
+    };
+    let nt = c.nontrivial || (st.invocations > 0 && (d.named_fragments + d.interface_cond + d.object_cond + d.union_cond_in_object > 0 || st.pruned > 0 || st.args_compared > 0));
+    c.nontrivial(nt)
+        .class_if(st.invocations > 0, "composite-resolver-invoked")
+        .class_if(st.invocations >= 4, "invocations>=4")
+        .class_if(st.abstract_ret > 0, "abstract-return-type")
+        .class_if(st.level2 > 0, "second-level-resolved")
+        .class_if(st.pruned > 0, "selection-pruned-by-directive")
+        .class_if(st.other_type_listed > 0, "view-lists-field-of-other-runtime-type")
+        .class_if(st.args_compared > 0, "arguments-compared")
+        .class_if(d.named_fragments > 0, "named-fragment")
+        .class_if(d.nested_fragments >= 2, "nested-fragments>=2")
+        .class_if(d.directive_var > 0, "directive-variable")
+        .class_if(d.directive_var_defaulted > 0, "defaulted-directive-variable")
+        .class_if(d.vars_omitted > 0, "omitted-variable")
+        .class_if(!agrees, "reference-disagrees-about-response")
+}
+
+pub fn run(ctx: &mut Ctx) {
+    ctx.rule = "derive-built data-driven schema L (two objects, an interface and a union over them, list / non-null wrappers, arguments of type ID, Int, Float, enum, [String!], input \
+                object, with and without defaults), data worlds valid for it, type-directed valid queries and mutations with aliases, inline and named fragments on every applicable \
+                condition, @skip/@include with literals and variables, variables provided / omitted / defaulted; every composite-returning resolver records ctx.look_ahead() and \
+                ctx.field().selection_set() two levels deep. Non-trivial = at least one recording resolver ran and the document has a typed fragment, a selection removed by a \
+                directive below such a resolver, or supplied arguments below it; distinct by rendered (world, query, variables)"
+        .into();
+    ctx.assume("compared per listed sub-field: name, alias, and the SUPPLIED arguments (those the field node mentions and that have a value: literals, provided variables, defaulted variables; not argument defaults the node does not mention, not omitted variables) after coercing the view's values to the declared argument type with the reference coercion (so 1 for a Float argument equals 1.0, an enum given through a variable as a string equals the enum value, input-object field defaults are filled in on both sides)");
+    ctx.assume("lower bound = CollectFields of the reference executor for the run-time type of every object the resolver returns (first and second level, __typename included); upper bound = selections reachable through inline fragments and fragment spreads of ANY type condition that @skip/@include keep: for abstract return types a view may list fields of fragments for other run-time types");
+    ctx.assume("look_ahead() can only be probed by name: every field name of the return type and of its possible types (and __typename) is probed, and below each composite one every field name of its type; exists() must be true for resolved names and false when no included selection has that name");
+    ctx.assume("response keys are unique (TypedCfg.repeats = false): with repeated keys resolvers run once per occurrence (open finding C04-F1) and a view cannot be attributed to one invocation");
+    ctx.assume("the Sch mirror of L is read back from L's SDL by the reference parser; documents are valid by construction; a disagreement between the reference executor and the response itself is C01's subject and only recorded as a class");
+    if ctx.open("C04-F1") {
+        ctx.excluded("C04-F1");
+    }
+    let schema = l::build();
+    let mut sch = vgql::sch::from_sdl_text(&schema.sdl()).expect("L's SDL must be readable by the reference parser");
+    for b in vgql::sch::BUILTIN_SCALARS {
+        sch.types.shift_remove(b);
+    }
+    let sch = Arc::new(sch);
+    let mut cfg = crate::c02::typed_cfg(ctx, "C01");
+    cfg.repeats = false;
+    cfg.ops = vec![OpKind::Query, OpKind::Query, OpKind::Query, OpKind::Mutation];
+    let n = ctx.tier.pick(30_000, 1_000_000);
+    ctx.stream("views", n, 700, |s| run_one(&schema, &sch, s, &cfg));
+    ctx.floor("composite-resolver-invoked", 5_000);
+    ctx.floor("abstract-return-type", 2_000);
+    ctx.floor("second-level-resolved", 2_000);
+    ctx.floor("selection-pruned-by-directive", 500);
+    ctx.floor("arguments-compared", 1_000);
+    ctx.floor("named-fragment", 500);
+    ctx.floor("view-lists-field-of-other-runtime-type", 300);
 }
